@@ -20,6 +20,10 @@ def rounds(ctx):
              backends={'ram': 1.0, 'sqlmem': 0.25}),
         dict(name='all_d3_two_studies', consts=speca.constants(MaxDepth=3, MaxDeliver=2, Studies={'s1', 's2'}, Cells={'c1'}),
              backends={'ram': 1.0, 'sqlmem': 0.5}),
+        dict(name='two_owners_same_study_id_d5', consts=speca.constants(
+            MaxDepth=5, MaxDeliver=1, MaxCount=1, MaxId=1, Studies={'s1', 's2'}, Clients={'w1'}, Params={'p1'}, Meas={'m1'}, SharedStudyId=True,
+            Kinds={'CreateStudy', 'SuggestTrials', 'CompleteTrial', 'AddMeasurement', 'DeleteTrial', 'StopTrial'}),
+             backends={'ram': 1.0, 'sqlmem': 1.0}),
         dict(name='es_recycle_d4', consts=speca.constants(
             MaxDepth=4, MaxDeliver=1, MaxCount=1, Recycle='always', Clients={'w1'}, Params={'p1'}, Meas={'m1'},
             Kinds={'CreateStudy', 'SuggestTrials', 'CheckEarlyStopping', 'StopTrial', 'CompleteTrial', 'SetStudyState'}),
@@ -38,6 +42,11 @@ def rounds(ctx):
           MaxDepth=5, MaxDeliver=1, MaxCount=1, Recycle='always', Clients={'w1'}, Params={'p1'}, Meas={'m1'},
           Kinds={'CreateStudy', 'SuggestTrials', 'CheckEarlyStopping', 'StopTrial', 'CompleteTrial', 'SetStudyState'}),
            backends={'ram': 1.0, 'sqlmem': 1.0}),
+      dict(name='two_owners_same_study_id_d6', consts=speca.constants(
+          MaxDepth=6, MaxDeliver=1, MaxCount=1, MaxId=2, Studies={'s1', 's2'}, Clients={'w1'}, Params={'p1'}, Meas={'m1'}, SharedStudyId=True,
+          Kinds={'CreateStudy', 'SuggestTrials', 'CompleteTrial', 'AddMeasurement', 'DeleteTrial', 'SetStudyState', 'DeleteStudy', 'CreateTrial',
+                 'UpdateMetadata', 'StopTrial'}),
+           backends={'ram': 1.0, 'sqlmem': 1.0}),
       dict(name='maxid4_d4', consts=speca.constants(MaxDepth=4, MaxId=4, MaxCount=3, MaxDeliver=3, Params={'p1'}, Meas={'m1'},
                                                     Kinds={'CreateStudy', 'SuggestTrials', 'CreateTrial', 'CompleteTrial',
                                                            'DeleteTrial', 'StopTrial', 'AddMeasurement'}),
@@ -48,8 +57,11 @@ def rounds(ctx):
 def walks(ctx):
   conf = {'Studies': ['s1', 's2'], 'Clients': ['w1', 'w2'], 'MaxId': 10, 'Cells': ['c1', 'c2'], 'Recycle': 'never'}
   n = 600 if ctx.thorough else 150
+  shared = dict(conf, SharedStudyId=True)
   return [dict(name='mixed', conf=conf, n=n, length=40, kinds=speca.ALL_KINDS, opts={'AlgoMeta': True, 'Meas': ['m1', 'm2', 'm3', 'mp']},
-               backends=['ram', 'sqlmem'] + (['sqlfile'] if ctx.thorough else []))]
+               backends=['ram', 'sqlmem'] + (['sqlfile'] if ctx.thorough else [])),
+          dict(name='two_owners_same_study_id', conf=shared, n=n // 2, length=40, kinds=[k for k in speca.ALL_KINDS if k != 'ListStudies'],
+               opts={'AlgoMeta': True}, backends=['sqlmem', 'ram'])]
 
 
 def run(ctx):
